@@ -23,7 +23,8 @@ import gen_tables as G
 
 # characters used by the width cases of harness/c18.py (default width for all others: 1)
 WIDTH_CHARS = ["a", "b", "x", " ", "\n", "\t", "\x00", "\x01", "\x1b", "\x7f", "\x9b", "\u4e16", "\u754c",
-               "\xe9", "\u0301", "\u200b", "\u3000", "\U0001F600", "\uff71", "\xad"]
+               "\xe9", "\u0301", "\u200b", "\u3000", "\U0001F600", "\uff71", "\xad",
+               "\r", "\x0b", "\x0c", "\x1c", "\x85", "\u2028", "\u2029"]
 
 
 STATE_MODULES = ["prompt_toolkit.formatted_text.html", "prompt_toolkit.formatted_text.ansi",
